@@ -21,6 +21,7 @@ generated files contain nothing but literals of primitive types (fast to parse: 
 """
 import ast
 import csv
+import hashlib
 import os
 import sys
 from decimal import Decimal, InvalidOperation
@@ -133,10 +134,16 @@ def main(repo, gendir):
     shards = [entries[k * n // NSHARDS:(k + 1) * n // NSHARDS] for k in range(NSHARDS)]
     hdr = "(* GENERATED by harness/gen_country_table.py from %s -- do not edit *)\n" % CSV
     files = []
+    digests = []
     for k, sh in enumerate(shards):
+        body_txt = ";\n".join(sh)
+        dg = hashlib.sha256(body_txt.encode()).hexdigest()[:32]
+        digests.append(dg)
         txt = (hdr + "From Coq Require Import ZArith List String.\nImport ListNotations.\nOpen Scope Z_scope.\n"
                "Open Scope string_scope.\n\n"
-               f"Definition rows_{k} : list (string * string * list (option (Z * Z))) :=\n[\n" + ";\n".join(sh) + "\n].\n")
+               f"Definition rows_{k} : list (string * string * list (option (Z * Z))) :=\n[\n" + body_txt + "\n].\n\n"
+               "(* digest of the literal above; Gen/CountryTable.v refuses to compile against a stale compiled shard *)\n"
+               f"Definition digest_{k} : string := \"{dg}\".\n")
         fn = f"CountryTable{k}.v"
         write_if_changed(os.path.join(gendir, fn), txt)
         files.append(fn)
@@ -149,13 +156,48 @@ def main(repo, gendir):
                 "Definition raw_rows : list (string * string * list (option (Z * Z))) :=\n  "
                 + " ++ ".join(f"rows_{k}" for k in range(len(shards))) + ".\n\n"
                 f"Definition n_rows : nat := {len(body)}.\nDefinition n_columns : nat := {len(header) - 2}.\n\n"
+                "(* freshness guard: every compiled shard is the one this file was generated with *)\n"
+                "Example shards_fresh : ["
+                + "; ".join(f"digest_{k}" for k in range(len(shards))) + "] =\n  ["
+                + "; ".join(coq_string(d) for d in digests) + "] := eq_refl.\n\n"
                 "(* ImportUtilities.country_codes with SWZ -> SWT (import_food_data.py) *)\n"
                 "Definition expected_codes : list string :=\n  [" + "; ".join(coq_string(c) for c in exp) + "].\n")
     write_if_changed(os.path.join(gendir, "CountryTable.v"), main_txt)
     return {"rows": len(body), "columns": len(header), "numeric_columns": len(header) - 2, "missing_cells": missing,
             "shards": len(shards), "files": files + ["CountryTable.v"], "expected_codes": len(exp),
-            "max_shard_bytes": max(len(";\n".join(s)) for s in shards)}
+            "max_shard_bytes": max(len(";\n".join(s)) for s in shards), "digests": digests}
+
+
+def heal(gendir):
+    """force a rebuild of every shard (used when Gen/CountryTable.v does not compile: a compiled shard is stale)"""
+    for k in range(NSHARDS):
+        for ext in (".vo", ".vos", ".vok", ".glob"):
+            try:
+                os.remove(os.path.join(gendir, f"CountryTable{k}{ext}"))
+            except FileNotFoundError:
+                pass
+    for ext in (".vo", ".vos", ".vok", ".glob"):
+        try:
+            os.remove(os.path.join(gendir, "CountryTable" + ext))
+        except FileNotFoundError:
+            pass
 
 
 if __name__ == "__main__":
     print(main(sys.argv[1] if len(sys.argv) > 1 else "/repo", sys.argv[2] if len(sys.argv) > 2 else "/verif/coq/Gen"))
+
+
+def ensure_built(ctx):
+    """call after ctx.regen(["gen_country_table"]): builds Gen/CountryTable.vo; when the freshness guard (or anything in
+    Gen/) fails, removes the compiled shards and builds once more.  Returns True when Gen/CountryTable.vo is usable."""
+    import lib
+    ok, bad, out = ctx.build(["Gen/CountryTable.vo"])
+    if ok:
+        return True
+    ctx.log("Gen/CountryTable does not build (stale shard?) - rebuilding all shards")
+    heal(os.path.join(lib.COQ, "Gen"))
+    ok, bad, out = ctx.build(["Gen/CountryTable.vo"])
+    if not ok:
+        ctx.tie_ok = False
+        ctx.broken.append(f"generated country table does not compile: {bad}: {out[-300:]}")
+    return ok
